@@ -766,6 +766,28 @@ K("construct.retry_gate", ["C01"], DT, "dt_build.rs", "construction_retry_gate_c
               new="            Ok(candidate) => return Ok(candidate),", desc="first candidate returned without consulting the Delaunay gate"))
 
 
+_GATE_FN = r"fn build_with_shuffled_retries\("
+_SL_GATE1 = dict(file=DT, fn_anchor=_GATE_FN, name="verif_slice_gate_first", params="candidate: Self", ret="Result<Self, ()>", where="where K::Scalar: ScalarSummable",
+                 stmts=[dict(block=r"match [^{;]*?\{\s*Ok\(\(\)\) => return Ok\(candidate\),\s*Err\(err\) => format!", pre="let _verif_last_error: String = ", post=";")],
+                 result="core::mem::forget(candidate);\n        Err(())")
+_SL_GATE2 = dict(file=DT, fn_anchor=_GATE_FN, name="verif_slice_gate_retry", params="candidate: Self", ret="Result<Self, ()>", where="where K::Scalar: ScalarSummable",
+                 stmts=[dict(block=r"match [^{;]*?\{\s*Ok\(\(\)\) => return Ok\(candidate\),\s*Err\(err\) => \{", pre="let mut last_error = String::new();\n        ", post=";")],
+                 result="core::mem::forget(last_error);\n        core::mem::forget(candidate);\n        Err(())")
+_GATE_OLD = {"first": "            Ok(candidate) => match crate::core::util::is_delaunay_property_only(&candidate.tri.tds)\n            {\n                Ok(()) => return Ok(candidate),",
+             "retry": "                Ok(candidate) => {\n                    match crate::core::util::is_delaunay_property_only(&candidate.tri.tds) {\n                        Ok(()) => return Ok(candidate),"}
+_GATE_NEW = {"first": "            Ok(candidate) => match candidate.is_valid()\n            {\n                Ok(()) => return Ok(candidate),",
+             "retry": "                Ok(candidate) => {\n                    match candidate.is_valid() {\n                        Ok(()) => return Ok(candidate),"}
+for _nm, _har in (("first", "first_gate_contract"), ("retry", "retry_gate_contract")):
+    K("construct.gate." + _nm, ["C01"], DT, "dt_gate.rs", _har, "K-slice",
+      [dict(file=DT, name=f"DelaunayTriangulation::build_with_shuffled_retries (K-slice: acceptance gate of the {_nm} attempt)", anchor=_GATE_FN)],
+      slices=[_SL_GATE1, _SL_GATE2], timeout=900,
+      assumed=["K-slice: the `match <check>(candidate) { Ok(()) => return Ok(candidate), Err(err) => .. }` expression of the attempt, verbatim, the candidate as a parameter "
+               "(glue: `let .. =`/`;` around it, the rejected candidate is forgotten instead of dropped); everything else in the wrapper dropped (unit construct.retry_gate, manual, holds the whole-wrapper contract); "
+               "is_delaunay_property_only (stub: pure, any verdict); DelaunayTriangulation::is_valid / validate (stubs: pure, any verdict independent of the brute-force one); format!, Display stubbed"],
+      obligations=["gate-consulted", "ok-iff-certified"],
+      claim=f"acceptance gate of the {_nm} construction attempt: a candidate leaves build_with_shuffled_retries as Ok iff the brute-force empty-circumsphere check accepted it",
+      mutant=dict(file=DT, old=_GATE_OLD[_nm], new=_GATE_NEW[_nm], desc=f"{_nm} gate asks the flip-predicate verifier (is_valid) instead of the brute-force check"))
+
 K("tri.index_update", ["C09"], TRI, "tri_slices.rs", "index_update_uses_stored_coords_contract", "K-slice",
   [dict(file=TRI, name="Triangulation::insert_transactional (K-slice: index update after a committed insertion)", anchor=_SL_IDX["fn_anchor"])],
   slices=[_SL_ORI, _SL_IDX], extra_attach=[("src/core/cell.rs", "cell_helper.rs")], timeout=900,
